@@ -1170,7 +1170,7 @@ func (c01) Gen(rng *rand.Rand, tier string, emit func(string)) {
 		// D2: qualities not requested
 		"parse fq0 " + h(fq3), "pipe fq0 8 2 bytes " + h(fq3), "pipe fq0 100 1 bytes " + h(fq3), "pipe fq1 8 3 one " + h(fq3),
 		// D3: multi-chunk GenBank / EMBL through the real readers (128 MiB buffer), 2 workers
-		"big gb0 2 bytes 1500 1", "big em0 2 bytes 1500 1",
+		"big gb0 2 bytes 1065 1", "big em0 3 bytes 1065 1",
 		"big fa 3 bytes 30000 1", "big fq1 4 pipe 20000 2", "big fq0 2 gz 20000 3", "big fa 2 gz 25000 4",
 		// empty / tiny inputs
 		"chunks fa 2 -", "chunks fq 5 -", "chunks ff 3 -", "pipe fa 4 2 bytes -", "pipe fa 4 1 gz -",
@@ -1262,8 +1262,8 @@ func (c01) Gen(rng *rand.Rand, tier string, emit func(string)) {
 		emit(fmt.Sprintf("big fa %d pipe %d %d", 1+rng.Intn(4), 25000+rng.Intn(20000), rng.Intn(1000)))
 		emit(fmt.Sprintf("big fq1 %d one %d %d", 1+rng.Intn(4), 5000+rng.Intn(5000), rng.Intn(1000)))
 		emit(fmt.Sprintf("big fq0 %d bytes %d %d", 2+rng.Intn(3), 20000+rng.Intn(20000), rng.Intn(1000)))
-		emit(fmt.Sprintf("big gb0 %d bytes %d %d", 2+rng.Intn(3), 1450+rng.Intn(300), rng.Intn(1000)))
-		emit(fmt.Sprintf("big em0 %d gz %d %d", 2+rng.Intn(3), 1450+rng.Intn(300), rng.Intn(1000)))
+		emit(fmt.Sprintf("big gb0 %d bytes %d %d", 2+rng.Intn(3), 1062+rng.Intn(40), rng.Intn(1000)))
+		emit(fmt.Sprintf("big em0 %d gz %d %d", 2+rng.Intn(3), 1062+rng.Intn(40), rng.Intn(1000)))
 	}
 }
 
